@@ -253,6 +253,33 @@ struct TxtEngine {
     }
   }
 
+  // ---- (e) terminal declarations: every list of <= maxk declarations over the names a, b, c (a name may be
+  // declared again), each without a code or with one of {97, 255, 256, 257, 258}, split into one or two TERM
+  // sections at every point, followed by one rule using the distinct names.  The numbering of code-less
+  // terminals ("next free code starting with 256") is state of the description reader.
+  void run_termdecl(int maxk, int shard, int nshards) {
+    static const int CODES[] = {-1, 97, 255, 256, 257, 258};
+    const int NC = 6, NN = 3;
+    long idx = 0;
+    for (int k = 1; k <= maxk; k++) {
+      long total = 1; for (int i = 0; i < k; i++) total *= NC * NN;
+      for (long n = 0; n < total; n++) for (int split = 0; split <= (k > 1 ? k - 1 : 0); split++) {
+        if ((idx++ % nshards) != shard) continue;
+        std::string t = "TERM"; long m = n; std::set<char> names;
+        for (int i = 0; i < k; i++) {
+          int c = CODES[m % NC]; m /= NC; char nm = (char) ('a' + m % NN); m /= NN; names.insert(nm);
+          if (split && i == split) t += " ; TERM";
+          t += std::string(" ") + nm; if (c >= 0) t += " = " + std::to_string(c);
+        }
+        t += " ; S :"; int j = 0; std::string tr;
+        for (char nm : names) { t += std::string(" ") + nm; tr += " " + std::to_string(j++); }
+        t += " # s (" + tr + " ) ;";
+        judge(t, "termdecl k=" + std::to_string(k) + " n=" + std::to_string(n) + " split=" + std::to_string(split), 2);
+        rep->add("termdecl_texts");
+      }
+    }
+  }
+
   // ---- (d) long symbol names through every message-producing error, big grammars
   void run_long_names() {
     static const int LENS[] = {1, 100, 190, 200, 201, 300, 1000};
@@ -366,6 +393,8 @@ int eng_txt_main(int argc, char **argv) {
   } else if (mode == "bytes") {
     int slices = 8;
     for (int k = 0; k < slices && !hit; k++) guarded([&](Report &) { bool h = false; E.run_bytes((int) a.geti("len", 4), si * slices + k, sn * slices, deadline, &h); }, "bytes slice " + std::to_string(k));
+  } else if (mode == "termdecl") {
+    guarded([&](Report &) { E.run_termdecl((int) a.geti("k", 3), si, sn); }, "termdecl");
   } else if (mode == "longnames") {
     if (si == 0) guarded([&](Report &) { E.run_long_names(); }, "longnames");
   }
